@@ -105,7 +105,10 @@ def do_op(pgpy, op, actor, priv, pub, other, enforce, user=None, address=None):
         if op == 'sign':
             s = actor.sign('usage text', created=K.ts(K.T0 + 500), **({'user': user} if user else {}))
             named = comp_index(priv, s.signer)
-            ok = bool(pub.verify('usage text', s))
+            try:
+                ok = bool(pub.verify('usage text', s))
+            except Exception:
+                ok = False                    # a signature WAS returned: that is the outcome, whoever can or cannot verify it
             fpr = s.signer_fingerprint
             if fpr and named >= 0:
                 comp = priv if named == 0 else list(priv.subkeys.values())[named - 1]
@@ -309,6 +312,16 @@ def run_scenarios(ctx, scen):
             elif sc['form'] == 'private-locked':
                 if not record(sc, predicted, locked_hist):
                     skipped += 1
+                if sc['op'] == 'sign' and hasid and locked is not None and 'S' not in sc['pflags'] and not any('S' in f for h in sc['subs'] for f in h):
+                    # locked, with a component that is NOT protected: a freshly generated signing / encryption subkey added inside an
+                    # unlock block. The key is locked all the same: whatever component would do the work, the operation is refused
+                    try:
+                        lm = pgpy.PGPKey.from_blob(bytes(locked))[0]
+                        with lm.unlock(PW):
+                            lm.add_subkey(K.raw_key('ed25519', K.T0 + 300), usage={pgpy.constants.KeyFlags.Sign}, created=K.ts(K.T0 + 300))
+                        record(sc, predicted, lm)
+                    except Exception as ex:
+                        ctx.note('locked key with an unprotected subkey not constructible: %s' % repr(ex)[:80])
         unl = [it for it in items if it[0]['form'] == 'private-unlocked']
         if unl:
             with locked.unlock(PW):
